@@ -9,6 +9,13 @@ TEXTS = ["5", "\"a b\"", "Some(\"x\")", "S { a: 1 }", "[1, 2]", "1.5", "'q'", "æ
 SPACED = ["\"a  b\"", "\"a\tb\"", "\"first\nsecond\"", "\"  lead\"", "\"trail  \"", "r\"x   y\"", "\"a \n  b\"", "'\t'", "f(\"a  b\", 1)"]
 
 
+# texts that look like the directives of a formatting or templating layer (a Debug form can contain any of them: a one-element
+# set of 1 prints as `{1}`, a string can hold anything).  A label is the wording around the stored texts and nothing else: the
+# stored texts are never themselves interpreted
+FORMATLIKE = ["{0}", "{1}", "{2}", "{}", "{:?}", "{1} of {2}", "Some({1})", "[{1}, {2}]", "\"{0} {1} {2}\"", "{actual}", "{expected}", "{{", "}}",
+              "{{1}}", "%s", "%1$s", "$1", "\\1", "{0", "1}", "expected {1}, got {0}", "got", "expected", ", got "]
+
+
 def kind_specs(rng):
     out = []
     for n in range(0, 5):
@@ -38,6 +45,12 @@ def label_cases(rng, count):
         for t in SPACED:
             cases.append("label\t%s\t%s\t%s" % (s, hx(rng.choice(TEXTS)), hx(t)))
             cases.append("label\t%s\t%s\t%s" % (s, hx(t), rng.choice(["none", hx(rng.choice(TEXTS))])))
+    # every label kind with every directive-like text on either side, and on both
+    for s in specs:
+        for t in FORMATLIKE:
+            cases.append("label\t%s\t%s\t%s" % (s, hx(rng.choice(TEXTS)), hx(t)))
+            cases.append("label\t%s\t%s\t%s" % (s, hx(t), rng.choice(["none", hx(rng.choice(TEXTS))])))
+            cases.append("label\t%s\t%s\t%s" % (s, hx(t), hx(rng.choice(FORMATLIKE))))
     return cases
 
 
